@@ -265,12 +265,26 @@ def write_error_code(buffer: Writable, error_code: ErrorCode) -> None:
     write_int16(buffer, error_code.value)
 
 
+_one_millisecond: Final = datetime.timedelta(milliseconds=1)
+
+
+def _timedelta_to_milliseconds(value: datetime.timedelta) -> int:
+    # Round to the nearest whole millisecond (ties to even) using integer
+    # arithmetic, going through a float number of seconds is lossy for large
+    # durations.
+    quotient, remainder = divmod(value, _one_millisecond)
+    doubled = 2 * remainder
+    if doubled > _one_millisecond or (doubled == _one_millisecond and quotient % 2):
+        quotient += 1
+    return quotient
+
+
 def write_timedelta_i32(buffer: Writable, value: i32Timedelta) -> None:
-    write_int32(buffer, round(value.total_seconds() * 1000))  # type: ignore[arg-type]
+    write_int32(buffer, _timedelta_to_milliseconds(value))  # type: ignore[arg-type]
 
 
 def write_timedelta_i64(buffer: Writable, value: i64Timedelta) -> None:
-    write_int64(buffer, round(value.total_seconds() * 1000))  # type: ignore[arg-type]
+    write_int64(buffer, _timedelta_to_milliseconds(value))  # type: ignore[arg-type]
 
 
 def write_datetime_i64(buffer: Writable, value: datetime.datetime) -> None:
